@@ -213,6 +213,9 @@ pub fn add_probe_members(g: &mut GenIdl, rng: &mut Rng) {
         ("arrset".to_string(), Ty::Array(Box::new(set))),
         ("arropt".to_string(), Ty::Array(Box::new(Ty::Opt(Box::new(Ty::Int))))),
         ("mapopt".to_string(), Ty::Dict(Box::new(Ty::Opt(Box::new(Ty::Str))))),
+        // a dictionary of optional empty structs is not a string set: its elements may be null
+        ("mapoptunit".to_string(), Ty::Dict(Box::new(Ty::Opt(Box::new(Ty::Struct(vec![])))))),
+        ("arroptunit".to_string(), Ty::Array(Box::new(Ty::Opt(Box::new(Ty::Struct(vec![])))))),
         ("same_a".to_string(), Ty::Str),
         ("same_b".to_string(), Ty::Str),
     ];
@@ -379,6 +382,16 @@ pub fn c09_main(ctx: &Ctx, repo_bin_dir: Option<String>) -> i32 {
     let mut crate_no = 0;
     for i in 0..n {
         let mut g = gen_for_generator(&mut rng, i, 35, 1 + i % 4);
+        if i == 1 {
+            // one definition whose methods are named after every Rust keyword that can be
+            // escaped (strict, 2018 and reserved-for-future-use alike)
+            let mut idl = Idl { name: "org.verif.kw".into(), comments: vec![], members: vec![] };
+            for kw in KW_NAMES.iter().filter(|k| !matches!(**k, "Self" | "Option" | "Vec" | "String" | "Result" | "Error" | "Ok" | "Some" | "Box" | "Struct")) {
+                idl.members.push(Member { kind: MKind::Method, name: kw.to_string(), comments: vec![], a: Ty::Struct(vec![("a".into(), Ty::Int)]), b: Some(Ty::Struct(vec![("b".into(), Ty::Str)])) });
+            }
+            let text = render(&idl, &mut rng, 0);
+            g = GenIdl { idl, text, risky: None };
+        }
         if i % 2 == 0 && g.risky.is_none() {
             add_probe_members(&mut g, &mut rng);
         }
